@@ -123,7 +123,12 @@ class EdgeListVectorizer(BaseEstimator, TransformerMixin):
 
         # Get row and column indices for only the edges who have both labels in our dictionary index
         # Don't bother checking if rows are valid if you just constructed the row_label_dictionary from the data
-        if self.row_label_dictionary is None:
+        # in a joint space a dictionary given for either side constrains both sides
+        joint_fixed = self.joint_space and (
+            self.row_label_dictionary is not None
+            or self.column_label_dictionary is not None
+        )
+        if self.row_label_dictionary is None and not joint_fixed:
             valid_rows = np.repeat(True, self.edge_list_.shape[0])
         else:
             valid_rows = np.isin(
@@ -131,7 +136,7 @@ class EdgeListVectorizer(BaseEstimator, TransformerMixin):
             )
 
         # Don't bother checking if rows are valid if you just constructed the col_label_dictionary from the data
-        if self.column_label_dictionary is None:
+        if self.column_label_dictionary is None and not joint_fixed:
             valid_cols = np.repeat(True, self.edge_list_.shape[0])
         else:
             valid_cols = np.isin(
